@@ -63,6 +63,15 @@ struct Res {
   }
 };
 
+// FNV-1a (the same function as pbt::fnv; this header is also compiled into the libFuzzer targets, which do not include pbt.h)
+inline uint64_t fnv64(const std::string &s) {
+  uint64_t h = 1469598103934665603ULL;
+  for (unsigned char ch : s) {
+    h ^= ch;
+    h *= 1099511628211ULL;
+  }
+  return h;
+}
 inline std::string hexs(const std::string &s, size_t max = 48) {
   static const char *d = "0123456789abcdef";
   std::string r;
@@ -461,8 +470,8 @@ inline Res exec_sockde(const Args &a) {
   const std::string &in = a.s.empty() ? std::string() : a.s[0];
   // A serialised address of more than 4 GiB whose length field agrees with the buffer length modulo 2^32 only (1 case in 32).  The
   // buffer is an anonymous mapping of which one page is ever touched; a decoder that compares lengths in 32 bits accepts it and copies.
-  if ((pbt::fnv(in) & 31) == 7) {
-    uint32_t k = 16 + (uint32_t)(pbt::fnv(in) >> 8) % 100;
+  if ((fnv64(in) & 31) == 7) {
+    uint32_t k = 16 + (uint32_t)(fnv64(in) >> 8) % 100;
     size_t total = ((size_t)1 << 32) + 12 + k;
     uint8_t *big = (uint8_t *)mmap(nullptr, total, PROT_READ | PROT_WRITE, MAP_PRIVATE | MAP_ANONYMOUS | MAP_NORESERVE, -1, 0);
     if (big != MAP_FAILED) {
@@ -541,7 +550,7 @@ inline Res exec_awskeys(const Args &a) {
   }
   char *id = nullptr, *sec = nullptr;
   // one file in eight: everything reads fine and the final fclose() reports an error (the stream is gone all the same)
-  bool fcf = (pbt::fnv(in) & 7) == 5;
+  bool fcf = (fnv64(in) & 7) == 5;
   if (fcf) shim_fclose_fail_next(1);
   int rc = shim_aws_readkeys(path, &id, &sec);
   if (fcf && shim_fclose_failed()) r.c("fclose-reports-failure");
@@ -576,7 +585,7 @@ inline Res exec_readpass(const Args &a) {
   const std::string &in = a.s.empty() ? std::string() : a.s[0];
   // A file that can be opened but not read (a directory: fopen succeeds, the first read fails with EISDIR).  Chosen by the input
   // itself (1 case in 16) so that replays agree.
-  if ((pbt::fnv(in) & 15) == 0) {
+  if ((fnv64(in) & 15) == 0) {
     char *pw0 = nullptr;
     int rc0 = shim_readpass_file("/", &pw0);
     if (rc0 == 0) {
@@ -590,7 +599,7 @@ inline Res exec_readpass(const Args &a) {
   }
   // A passphrase source that is not a regular file (a pipe: size unknown in advance, nothing to seek in).  1 case in 8; the data
   // fits the pipe, the write end is closed, and the library opens the read end by name.
-  if ((pbt::fnv(in) & 7) == 3 && in.size() <= 60000) {
+  if ((fnv64(in) & 7) == 3 && in.size() <= 60000) {
     int pf[2];
     if (pipe(pf) == 0) {
       size_t off = 0;
@@ -625,7 +634,7 @@ inline Res exec_readpass(const Args &a) {
     exit(3);
   }
   char *pw = nullptr;
-  bool fcf = (pbt::fnv(in) & 7) == 5;
+  bool fcf = (fnv64(in) & 7) == 5;
   if (fcf) shim_fclose_fail_next(1);
   int rc = shim_readpass_file(path, &pw);
   if (fcf && shim_fclose_failed()) r.c("fclose-reports-failure");
@@ -666,7 +675,7 @@ inline Res exec_getopt(const Args &a) {
   if (!argv) abort();
   // one vector in three lives in read-only memory (string literals, a const table): the parser gets `char * const argv[]` and has no
   // business writing to the strings, not even temporarily
-  bool ro = argc > 0 && (pbt::fnv(a.s[0]) % 3) == 0;
+  bool ro = argc > 0 && (fnv64(a.s[0]) % 3) == 0;
   char *ropage = nullptr;
   size_t rolen = 0;
   if (ro) {
